@@ -444,6 +444,8 @@ PREDICATES = {
     'none_obj': lambda x: x is None,
     'int_leaf': lambda x: type(x) is int,
     'holds_one_int': lambda x: _holds_one_int(x),
+    # a marker value that *would* be traversed (a 3-tuple) unless the predicate is forwarded to every internal flatten
+    'marker3': lambda x: type(x) is tuple and len(x) == 3 and x[0] == '\u00a7',
 }
 
 
@@ -551,17 +553,17 @@ def count_leaves(desc):
     return sum(1 for c, i in walk_refs(desc) if c[i][0] in LEAF_TAGS)
 
 
-def substitute_leaves(draw, desc, sub, prob_num=1, prob_den=3, at_least_one=False):
-    """replace some leaf positions by drawn subtrees (makes `desc` a prefix of the result)"""
+def substitute_leaves(draw, desc, sub, prob_num=1, prob_den=3, at_least_one=False, none_too=False):
+    """replace some leaf positions by drawn subtrees (makes `desc` a prefix of the result); with none_too also
+    the None positions, which are leaves under none_is_leaf=True (and a conflict under none_is_leaf=False)"""
     d = _copy.deepcopy(desc)
     root = [d]
-    refs = [(c, i) for c, i in walk_refs(d) if c[i][0] in LEAF_TAGS]
-    # walk_refs(d) used root=[d] internally; rebuild refs against our own root holder
+    tags = LEAF_TAGS + ('none',) if none_too else LEAF_TAGS
     refs = []
     stack = [(root, 0)]
     while stack:
         c, i = stack.pop()
-        if c[i][0] in LEAF_TAGS:
+        if c[i][0] in tags:
             refs.append((c, i))
         stack.extend(reversed(children_refs(c[i])))
     done = 0
@@ -851,19 +853,20 @@ def pair_descs(draw, max_leaves=10, kinds=None, modes=PAIR_MODES, keys=None):
         a = draw(nested_dict_descs())
     else:
         a = draw(tree_descs(max_leaves, kinds=kinds, keys=keys))
+    nt = contains_tag(a, ('none',)) and draw(st.booleans())    # None positions extended too (leaves iff none_is_leaf)
     if mode == 'same':
         b = _copy.deepcopy(a)
     elif mode == 'suffix':
-        b = substitute_leaves(draw, a, sub, at_least_one=True)
+        b = substitute_leaves(draw, a, sub, at_least_one=True, none_too=nt)
     elif mode == 'near_miss':
-        b0 = substitute_leaves(draw, a, sub) if draw(st.booleans()) else a
+        b0 = substitute_leaves(draw, a, sub, none_too=nt) if draw(st.booleans()) else a
         b, edit = near_miss(draw, b0)
     elif mode == 'dict_variant':
-        b = dict_variant(draw, a) if draw(st.integers(0, 2)) else order_variant(draw, substitute_leaves(draw, a, sub))
+        b = dict_variant(draw, a) if draw(st.integers(0, 2)) else order_variant(draw, substitute_leaves(draw, a, sub, none_too=nt))
     elif mode == 'suffix_variant':
-        b = dict_variant(draw, substitute_leaves(draw, a, sub, at_least_one=True))
+        b = dict_variant(draw, substitute_leaves(draw, a, sub, at_least_one=True, none_too=nt))
     elif mode == 'nested_dict_variant':
-        b = dict_variant(draw, substitute_leaves(draw, a, sub) if draw(st.booleans()) else a)
+        b = dict_variant(draw, substitute_leaves(draw, a, sub, none_too=nt) if draw(st.booleans()) else a)
     else:
         b = draw(tree_descs(max_leaves, kinds=kinds, keys=keys))
     return {'a': a, 'b': b, 'rel': mode, 'edit': edit}
